@@ -48,6 +48,7 @@ type rewriter struct {
 	census  *Census
 	file    *ast.File
 	fname   string
+	knobs   int
 	tmp     int
 	usedSim bool
 }
@@ -257,6 +258,35 @@ func (r *rewriter) rewriteFile() {
 			r.usedSim = true
 			r.count("R7_time_now")
 		}
+		return true
+	})
+	// R8: tuning knobs. A literal channel capacity >= 2 (a queue size) becomes
+	// _vsim.Knob("<file>:<line>", N): N unless the running check draws a smaller capacity for
+	// this run. Capacity only decides when a sender blocks, never what is delivered, so
+	// correct code behaves the same; code that silently depends on "the queue is never
+	// full" does not.
+	ast.Inspect(f, func(n ast.Node) bool {
+		ce, ok := n.(*ast.CallExpr)
+		if !ok || len(ce.Args) != 2 {
+			return true
+		}
+		if id, ok := ce.Fun.(*ast.Ident); !ok || id.Name != "make" {
+			return true
+		}
+		if _, ok := ce.Args[0].(*ast.ChanType); !ok {
+			return true
+		}
+		lit, ok := ce.Args[1].(*ast.BasicLit)
+		if !ok || lit.Kind != token.INT {
+			return true
+		}
+		if v, err := strconv.Atoi(lit.Value); err != nil || v < 2 {
+			return true
+		}
+		r.knobs++
+		name := fmt.Sprintf("%s#%d", filepath.Base(r.fname), r.knobs)
+		ce.Args[1] = r.simCall("Knob", &ast.BasicLit{Kind: token.STRING, Value: strconv.Quote(name)}, lit)
+		r.count("R8_knob_chan_capacity")
 		return true
 	})
 	// declarations
